@@ -219,9 +219,16 @@ class ModelParallel:
             raise ValueError("n_jobs == 0 in Parallel has no meaning")      # as joblib does
         self.n_jobs = n_jobs
         self.timeout = kw.get("timeout")
+        self.require = kw.get("require")
 
     def __call__(self, iterable):
         sch = ModelParallel.scheduler_factory()
+        if self.require != "sharedmem":
+            # joblib's contract: only require='sharedmem' pins a thread-based backend. With a mere preference the user's outer
+            # joblib context (parallel_backend('loky')) decides, and then the tasks run on pickled copies of their arguments
+            if sch.ctx.choose("outer-backend", 2, 1, "an outer joblib context selects a process-based backend") == 1:
+                import copy
+                iterable = [(fn, copy.deepcopy(a), copy.deepcopy(k)) for fn, a, k in iterable]
         res = sch.run_tasks(iterable, self.n_jobs)
         if self.timeout is not None and res:
             # joblib raises TimeoutError in the caller when a task needs longer than `timeout`; how long the user's
